@@ -23,8 +23,8 @@ WORK = os.path.join(VERIF, ".work")
 EVID = os.path.join(VERIF, "evidence")
 REPLAY = os.path.join(EVID, "replay")
 GENERATED = os.path.join(LEAN, "HopModel", "Generated")
-def hv_path(prop):
-    return os.path.join(BUILD, "hv-" + prop)
+def hv_path(prop, tags=""):
+    return os.path.join(BUILD, "hv-" + prop + ("+" + tags if tags else ""))
 HOPMODEL = os.path.join(LEAN, ".lake", "build", "bin", "hopmodel")
 KNOWN = os.path.join(VERIF, "KNOWN_FINDINGS.jsonl")
 
@@ -253,11 +253,13 @@ def prove(prop_id, mod, tier):
 
 # ---------------------------------------------------------------- D-tie
 
-def build_hv(prop, tags="verif", suffix=""):
-    """build the property's own harness binary from /repo's current working tree"""
+def build_hv(prop, tags=""):
+    """build the property's own harness binary from /repo's current working tree (always with
+    the `verif` tag, plus the suite's extra tags)"""
     sync_harness_gosum()
     os.makedirs(BUILD, exist_ok=True)
-    rc, out = sh(["go", "build"] + modfile_args() + ["-tags", tags, "-o", hv_path(prop) + suffix, "./cmd/" + prop.lower()],
+    alltags = "verif" + ("," + tags if tags else "")
+    rc, out = sh(["go", "build"] + modfile_args() + ["-tags", alltags, "-o", hv_path(prop, tags), "./cmd/" + prop.lower()],
                  cwd=HARNESS, env=goenv(), timeout=1800)
     return rc == 0, out
 
@@ -282,22 +284,23 @@ def split_cases(ops):
 class Tie:
     """One differential run of a suite."""
 
-    def __init__(self, prop, suite, tier, seed, workdir, part=0, parts=1):
+    def __init__(self, prop, suite, tier, seed, workdir, part=0, parts=1, tags="", suite_arg=None):
         self.prop, self.suite, self.tier, self.seed = prop, suite, tier, seed
         self.dir, self.part, self.parts = workdir, part, parts
+        self.tags, self.arg = tags, suite_arg or suite
 
     def impl_cmd(self):
-        return [hv_path(self.prop), self.suite, "run"]
+        return [hv_path(self.prop, self.tags), self.arg, "run"]
 
     def model_cmd(self, spec=False):
-        return [HOPMODEL, self.suite] + (["--spec"] if spec else [])
+        return [HOPMODEL, self.arg] + (["--spec"] if spec else [])
 
     def path(self, name):
         return os.path.join(self.dir, "%s.%d.%s" % (self.suite, self.part, name))
 
     def generate(self):
         with open(self.path("ops"), "w") as f:
-            p = subprocess.run([hv_path(self.prop), self.suite, "gen", "-seed", str(self.seed), "-tier", self.tier,
+            p = subprocess.run([hv_path(self.prop, self.tags), self.arg, "gen", "-seed", str(self.seed), "-tier", self.tier,
                                 "-part", str(self.part), "-parts", str(self.parts)],
                                stdout=f, stderr=subprocess.PIPE, text=True, env=goenv())
         return p.returncode == 0, p.stderr
